@@ -303,3 +303,14 @@ VARIANTS += [
  V("c31-b1-slow-path-check-removed", "C31", "C31.B1", "batchrepr/reader.go",
    "	if v > uint32(len(data)) {\n		return nil, nil, false\n	}\n	return data[v:], data[:v], true", "	if v > uint32(len(data)) && n > 5 {\n		return nil, nil, false\n	}\n	return data[v:], data[:v], true"),
 ]
+
+VARIANTS += [
+ V("c18-t1-writer-wrong-header-size", "C18", "C18.T1", "record/log_writer.go",
+   "	r := copy(b.buf[i+walSyncHeaderSize:], p)", "	r := copy(b.buf[i+recyclableHeaderSize:], p)"),
+ V("c18-t1-writer-mixes-wire-formats", "C18", "C18.T1", "record/log_writer.go",
+   "			b.buf[i+6] = walSyncMiddleChunkEncoding", "			b.buf[i+6] = recyclableMiddleChunkEncoding"),
+ V("c18-t1-table-wrong-size", "C18", "C18.T1", "record/record.go",
+   "	walSyncLastChunkEncoding:      {chunkPosition: lastChunkPosition, wireFormat: walSyncWireFormat, headerSize: walSyncHeaderSize},", "	walSyncLastChunkEncoding:      {chunkPosition: lastChunkPosition, wireFormat: walSyncWireFormat, headerSize: recyclableHeaderSize},"),
+ V("c18-g2-eof-mid-record", "C18", "C18.G2", "record/record.go",
+   "			if !wantFirst || r.end != r.n {", "			if r.end != r.n {"),
+]
